@@ -7,10 +7,10 @@
    over-approximates the concrete one), which is all the soundness of wrapping needs; they hold for every
    PPL domain that implements the generic wrap_assign (C/NNC polyhedra, BD shapes, octagonal shapes).
 
-   The parameter [patched] selects between the code AS IT IS ([patched = false]) and the code with the
-   suggested fix of the defect found by this property (the variable at which the collective complexity
-   first exceeds the threshold is neither translated nor given the full range; see Properties_C17.v):
-   [patched = true] clears the pending translations and gives that variable the full range. *)
+   The parameter [patched] selects between the code AS IT IS ([patched = true]: when the collective complexity
+   first exceeds the threshold the pending translations are cleared and the current variable gets the full
+   range, wrap_assign.hh since /repo commit 94f2bc7) and the code BEFORE that commit ([patched = false]:
+   that variable was neither translated nor given the full range; see wrap_generic_pre_fix_refuted). *)
 From Coq Require Import List ZArith QArith Qround Lia Lqa Bool.
 Require Import PPLV.Base.FM PPLV.Base.Sys PPLV.Base.Gens PPLV.Poly.PolyOps PPLV.Wrap.WrapSpec.
 Import ListNotations.
